@@ -44,3 +44,56 @@ Proof.
   unfold unchanged. destruct w as [f k]. cbn [start world_of s_w w_fs w_ks wo_fs wo_ks v_after].
   now rewrite fs_beq_refl, ktab_beq_refl.
 Qed.
+
+(* ------------------------------------------------------------------ (c) and (d) on the view *)
+From LC Require Import Proofs.C02cP Proofs.C02dP.
+
+Definition paths_distinct (w : wobs) : bool := nodup_paths (map fst (wo_fs w)).
+
+Theorem forest_preserved_view cfg w e cmd um :
+  cfg_ok cfg = true -> fs_ok cfg (wo_fs w) = true -> names_distinct cfg w = true ->
+  let v := view_of_model cfg w e cmd um in
+  in_scope e cmd (v_res v) = true ->
+  (negb (C02.forest_ok cfg (wo_fs w)) || C02.forest_ok cfg (wo_fs (v_after v))) = true.
+Proof.
+  intros Hcfg Hfs Hnd v. subst v. rewrite view_model_eq. cbv zeta. cbn [v_res v_after wo_fs]. intros Hsc.
+  destruct (C02.forest_ok cfg (wo_fs w)) eqn:HF; [|reflexivity]. cbn [negb orb].
+  apply (forest_preserved_run e cfg um cmd (start w)); auto.
+Qed.
+
+Theorem rebase_exact_view cfg w e cmd um :
+  cfg_ok cfg = true -> fs_ok cfg (wo_fs w) = true -> paths_distinct w = true ->
+  no_stale_tmp cfg (wo_fs w) cmd = true -> e_pretend e = false ->
+  let v := view_of_model cfg w e cmd um in
+  match v_cmd v, v_res v with
+  | CRebase a b0, ROk => C02.rebase_exact cfg (wo_fs w) (wo_fs (v_after v)) a b0
+  | _, _ => true
+  end = true.
+Proof.
+  intros Hcfg Hfs Hnd Hst Hnp v. subst v. rewrite view_model_eq. cbv zeta. cbn [v_cmd v_res v_after wo_fs].
+  destruct cmd; try reflexivity.
+  pose proof (rebase_exact_run e cfg um a b0 (start w) Hcfg Hfs Hnd Hst Hnp) as H.
+  destruct (run_command e cfg um (CRebase a b0) (start w)) as [[r| | | |] s']; try reflexivity. exact H.
+Qed.
+
+(* all conjuncts together, for every command but rename (whose rename_exact conjunct is not proved) *)
+Definition not_rename (cmd : command) : bool := match cmd with CRename _ _ => false | _ => true end.
+Theorem step_spec_view cfg w e cmd um :
+  cfg_ok cfg = true -> fs_ok cfg (wo_fs w) = true -> kernel_wf w = true -> names_distinct cfg w = true ->
+  paths_distinct w = true -> no_stale_tmp cfg (wo_fs w) cmd = true ->
+  C02.forest_ok cfg (wo_fs w) = true -> not_rename cmd = true ->
+  in_scope e cmd (v_res (view_of_model cfg w e cmd um)) = true ->
+  C02.step_spec cfg w (view_of_model cfg w e cmd um) = true.
+Proof.
+  intros Hcfg Hfs Hk Hnd Hpd Hst HF Hnr Hsc. unfold C02.step_spec.
+  pose proof (no_diverge cfg w e cmd um HF Hk Hnd) as H1.
+  pose proof (forest_preserved_view cfg w e cmd um Hcfg Hfs Hnd Hsc) as H2.
+  pose proof (breaking_refused_view cfg w e cmd um Hk) as H3. cbv zeta in H2, H3.
+  rewrite H1, H2, H3. cbn [andb].
+  assert (Ee : v_env (view_of_model cfg w e cmd um) = e) by (rewrite view_model_eq; reflexivity).
+  rewrite Ee. destruct (e_pretend e) eqn:Hp; [reflexivity|]. cbn [negb andb].
+  destruct (e_fault e); [|reflexivity|reflexivity]. cbn [negb orb].
+  pose proof (rebase_exact_view cfg w e cmd um Hcfg Hfs Hpd Hst Hp) as H4. cbv zeta in H4.
+  assert (Ec : v_cmd (view_of_model cfg w e cmd um) = cmd) by (rewrite view_model_eq; reflexivity).
+  rewrite Ec in *. destruct cmd; try reflexivity; try discriminate. exact H4.
+Qed.
